@@ -108,9 +108,12 @@ class LibFailure(Exception):
 def lib(fails: List[Dict[str, Any]], what: str, inp: Any, fn: Callable, *a, **kw):
     """Run a call into the library under test: an exception it raises on a valid input is a property failure (recorded in
     `fails`, LibFailure raised to abandon the case), not a harness error."""
+    allow = kw.pop("_allow", ())
     try:
         return fn(*a, **kw)
     except Exception as e:
+        if allow and isinstance(e, allow):
+            raise
         fails.append({"what": what + ".raises", "input": inp, "observed": f"{type(e).__name__}: {e}", "expected": "no exception on a valid input",
                       "trace": traceback.format_exc()[-800:]})
         raise LibFailure()
